@@ -8,11 +8,11 @@ import (
 )
 
 const (
-	fnBCUpdate   = "(*github.com/transparency-dev/witness/cmd/feedbastion.bastionClient).Update"
-	fnMarshal    = "(" + pWitness + ".Proof).Marshal"
-	fnUnmarshal  = "(*" + pWitness + ".Proof).Unmarshal"
-	cEncode      = "(*encoding/base64.Encoding).EncodeToString"
-	cDecode      = "(*encoding/base64.Encoding).DecodeString"
+	fnBCUpdate  = "(*github.com/transparency-dev/witness/cmd/feedbastion.bastionClient).Update"
+	fnMarshal   = "(" + pWitness + ".Proof).Marshal"
+	fnUnmarshal = "(*" + pWitness + ".Proof).Unmarshal"
+	cEncode     = "(*encoding/base64.Encoding).EncodeToString"
+	cDecode     = "(*encoding/base64.Encoding).DecodeString"
 )
 
 // encodingObjects returns the distinct receiver terms of base64 encode/decode calls on all paths.
